@@ -218,7 +218,7 @@ class C03(Prop):
     CASE_HEADER = ("From Boreal Require Import Base.Prelude Spec.Regex Model.Hir Model.Widen Model.Validator "
                    "Model.Raw Model.HirScan Model.HexCase.")
     HARNESS_BINS = ("c03",)
-    KF = {1: "C03-start-position", 2: "C03-fullword-single-length"}
+    KF = {1: "C03-start-position", 2: "C03-fullword-single-length", 3: "C03-alt-glue"}
     RULE = ("regex ASTs of the property's dialect (literals incl. NUL, newline and escaped metacharacters, perl and "
             "bracketed classes incl. negated and ranges, dot, groups, alternation, ? * + {n} {n,} {n,m} {,m} greedy and "
             "lazy, ^ $ \\b \\B, rare non-ASCII characters), depth <= 3, non-nullable, printed to YARA syntax with every "
@@ -264,7 +264,7 @@ class C03(Prop):
         if r < 79 and not opts["wide"]:
             c = rng.choice(["é", "ù", "€"])
             return ["char", list(c.encode()), c]
-        if depth < 3:
+        if depth < 2 or (depth < 3 and rng.chance(1, 3)):
             return ["group", self.gen_alt(rng, depth + 1, opts)]
         return ["lit", rng.choice(LITS), 0]
 
@@ -293,6 +293,12 @@ class C03(Prop):
         n = rng.range(1, 4 if depth else 5)
         pieces, any_solid = [], False
         for i in range(n):
+            if rng.chance(3, 10):
+                # a run of plain literals: what atoms are made of
+                for _ in range(rng.range(2, 4)):
+                    pieces.append(["lit", rng.choice(LITS[:9]) if rng.chance(9, 10) else rng.below(256), 0])
+                any_solid = True
+                continue
             p, nullable = self.gen_piece(rng, depth, opts)
             any_solid = any_solid or not nullable
             pieces.append(p)
@@ -310,7 +316,7 @@ class C03(Prop):
         return pieces[0] if len(pieces) == 1 else ["cat", pieces]
 
     def gen_alt(self, rng, depth, opts, top=False):
-        n = 1 if rng.chance(3, 5) else rng.range(2, 3)
+        n = 1 if rng.chance(17 if top else 11, 20) else rng.range(2, 3)
         alts = [self.gen_concat(rng, depth, opts, top) for _ in range(n)]
         return alts[0] if n == 1 else ["alt", alts]
 
@@ -348,7 +354,7 @@ class C03(Prop):
         if mods["wide"]:
             mods["ascii"] = rng.chance(1, 2)
         ci, da = rng.chance(1, 5), rng.chance(1, 3)
-        opts = {"wide": mods["wide"], "wb": (not mods["wide"]) and rng.chance(1, 3), "anchors": rng.chance(1, 8)}
+        opts = {"wide": mods["wide"], "wb": rng.chance(1, 3), "anchors": rng.chance(1, 8)}
         node = self.gen_alt(rng, 0, opts, top=True)
         nocase = ci or mods["nocase"]
         used = sorted(node_bytes(node, set()))
@@ -384,7 +390,7 @@ class C03(Prop):
         return [self.gen_case(rng.fork("c%d" % i)) for i in range(n)]
 
     def budget(self, tier):
-        return 400 if tier == "quick" else 6000
+        return 900 if tier == "quick" else 8000
 
     def corpus(self, ctx):
         return _hir.load_corpus("C03")
